@@ -866,6 +866,14 @@ func (e *Env) call(x *SExpr) Val {
 				return intVal(fmt.Sprintf("(bat %s %s)", a.T, i.T))
 			case "unfold":
 				return e.tr(x.Args[0])
+			case "asType":
+				// asType(ifaceValue, T): the payload of an interface value viewed as type T
+				a := e.tr(x.Args[0])
+				t, _ := e.resolveType(x.Args[1].String())
+				if t == nil {
+					e.fail(x, "asType needs a Go type")
+				}
+				return Val{T: e.sorts().unbox(e.sorts().sortOf(t), fmt.Sprintf("(i.val %s)", a.T)), Ty: t}
 			case "prev":
 				if e.prev == nil {
 					e.fail(x, "prev() is only available in loop step clauses")
